@@ -35,7 +35,10 @@ LEAF_CLASSES = {
     "symbol": {"Symbol", "DimensionSymbol", "SymSymbol", "Expr", "Basic"},
     "free": {"SymSymbol", "Expr", "Basic"},
     "prefix": {"Prefix", "Expr", "Basic"},
-    "applied": {"AppliedFunction", "SymFunction", "Application", "Expr", "Basic"},  # f(t) of a library Function: carries a dimension
+    # f(t) of a library Function: the dimension is an attribute of f (reached through .func), NOT of the applied object
+    "applied": {"AppliedFunction", "SymFunction", "Application", "Expr", "Basic"},
+    # a Symbolic wrapper (Average, FiniteDifference, ...): has a `dimension`, is no DimensionSymbol and no Atom
+    "symbolic": {"Symbolic", "Expr", "Basic"},
     "indexedbase": {"IndexedSymbol", "DimensionSymbol", "Expr", "Basic"},
 }
 KNOWN_CLASSES |= set().union(*NODE_CLASSES.values()) | set().union(*LEAF_CLASSES.values()) | {"type"}
@@ -75,9 +78,39 @@ class Leaves:
         self.info[name] = {"kind": "prefix", "scale_factor": var("f_" + name)}
         return var(name)
 
-    def applied(self, name: str, dim: Dim) -> T:
-        self.info[name] = {"kind": "applied", "dimension": dim}
+    def applied(self, name: str, dim: Dim, args=()) -> T:
+        self.info[name] = {"kind": "applied", "dimension": dim, "func": name.split("(")[0], "args": list(args)}
         return var(name)
+
+    def symbolic(self, name: str, dim: Dim) -> T:
+        self.info[name] = {"kind": "symbolic", "dimension": dim}
+        return var(name)
+
+    def function(self, fname: str) -> Optional[dict]:
+        """the applied leaf of the library function called fname"""
+        return next((i for i in self.info.values() if i.get("kind") == "applied" and i.get("func") == fname), None)
+
+    def attr(self, v, name: str):
+        """the attribute `name` of a leaf or of a function object as the library's classes define it, or Leaves.ABSENT"""
+        if isinstance(v, tuple) and len(v) == 2 and v[0] == "func":
+            i = self.function(v[1])
+            return i["dimension"] if i is not None and name == "dimension" else Leaves.ABSENT
+        i = self.of(v)
+        if i is None:
+            return Leaves.ABSENT
+        if i["kind"] == "applied":
+            if name == "func":
+                return ("func", i["func"])
+            if name == "args":
+                return list(i["args"])
+            return Leaves.ABSENT
+        if name == "args" and i["kind"] in ("symbol", "free", "quantity", "indexedbase"):
+            return []
+        if name in ("kind", "func"):
+            return Leaves.ABSENT
+        return i.get(name, Leaves.ABSENT)
+
+    ABSENT = ("<absent>", )
 
     def new_quantity(self, factor, dim: Dim) -> T:
         self.k += 1
@@ -189,11 +222,9 @@ class CollectReader(GateReader):
                 return base.args[0]
             if base.cls == "Derivative" and attr == "variable_count":
                 return list(base.args[1:])
-        i = self.leaves.of(base)
-        if i is not None and attr in i:
-            return i[attr]
-        if i is not None and i.get("kind") == "applied" and attr == "func":
-            return ("func", base.val.split("(")[0])
+        got = self.leaves.attr(base, attr)
+        if got is not Leaves.ABSENT:
+            return got
         if isinstance(base, tuple) and base and base[0] == "indexed-element" and attr == "base":
             return base[1]
         if isinstance(base, (T, int)) and attr in ("is_Float", ):
@@ -232,8 +263,10 @@ class CollectReader(GateReader):
             if attr == "is_dimensionless":
                 return False
             return args[0] == args[1]
-        if attr == "diff" and isinstance(base, (T, int)):
-            return app("diff", base if isinstance(base, T) else num(base), *[x if isinstance(x, T) else (num(x) if isinstance(x, int) else app("pair", *x)) for x in args])
+        if attr == "diff" and isinstance(base, (T, int, Node)) and not isinstance(base, bool):
+            def term(x):  # an operand handed on as it came (a Node) stands for its own expression
+                return app("pair", *[term(y) for y in x]) if isinstance(x, list) else tree_term(x, self.leaves)
+            return app("diff", term(base), *[term(x) for x in args])
         return super().hook_method(base, attr, args, kwargs, n)
 
     def hook_call(self, n, env, fns):
@@ -256,15 +289,12 @@ class CollectReader(GateReader):
             self.fail(n, "type() of a leaf")
         if name == "hasattr" and len(n.args) == 2:
             v, a = self.ev(n.args[0], env, fns), self.ev(n.args[1], env, fns)
-            i = self.leaves.of(v)
-            if isinstance(v, tuple) and v and v[0] == "func":
-                return False
-            return bool(i and a in i)
+            return self.leaves.attr(v, a) is not Leaves.ABSENT
         if name == "getattr" and len(n.args) in (2, 3):
             v, a = self.ev(n.args[0], env, fns), self.ev(n.args[1], env, fns)
-            i = self.leaves.of(v)
-            if i and a in i:
-                return i[a]
+            got = self.leaves.attr(v, a)
+            if got is not Leaves.ABSENT:
+                return got
             if len(n.args) == 3:
                 return self.ev(n.args[2], env, fns)
             raise Raised("AttributeError", getattr(n, "lineno", 0))
@@ -336,6 +366,9 @@ class CollectReader(GateReader):
     def construct(self, fv, args: list, n):
         args = [self.scalar(a, n) for a in args]
         if fv[0] == "func":
+            i = self.leaves.function(fv[1])
+            if i is not None and len(i["args"]) == len(args) and all(same_value(a, b) for a, b in zip(args, i["args"])):
+                return var(next(k for k, v in self.leaves.info.items() if v is i))  # the same application: the leaf itself
             return app(fv[1], *args)
         cls = fv[1]
         if cls in ("Min", "Max"):
